@@ -49,11 +49,12 @@ type scen struct {
 	TLS12       bool // RealTLS: cap the server at TLS 1.2 (different flights than 1.3)
 	HeaderLen   int  // > 0: Dialer.Header of that many bytes (several header lines), so that connection writes happen inside the user's header writer
 	NoDeadlines bool // the connection refuses every SetDeadline call (no deadline support)
+	WrapConn    bool // Dialer.WrapConn is set (an identity wrapper; wsutil.DebugDialer always sets one)
 }
 
 func (s scen) String() string {
 	return fmt.Sprintf("ctx=%s(deadline=%v) timeout=%v event=%s place=%s cancelAt=%v peer=%s chunks=%d delay=%v wbuf=%d tls=%v dialDelay=%v lastOp=%d realtls=%v tls12=%v headerLen=%d",
-		s.CtxKind, s.CtxDeadline, s.Timeout, s.Event, s.Place, s.CancelAt, s.Peer, s.Chunks, s.ChunkDelay, s.WBuf, s.TLS, s.DialDelay, s.LastOp, s.RealTLS, s.TLS12, s.HeaderLen) + fmt.Sprintf(" nodeadlines=%v", s.NoDeadlines)
+		s.CtxKind, s.CtxDeadline, s.Timeout, s.Event, s.Place, s.CancelAt, s.Peer, s.Chunks, s.ChunkDelay, s.WBuf, s.TLS, s.DialDelay, s.LastOp, s.RealTLS, s.TLS12, s.HeaderLen) + fmt.Sprintf(" nodeadlines=%v wrapconn=%v", s.NoDeadlines, s.WrapConn)
 }
 
 type ctxKey struct{}
@@ -125,6 +126,9 @@ type foreignCtx struct{ context.Context }
 func (f foreignCtx) Value(key interface{}) interface{} { return nil }
 
 type tlsWrap struct{ net.Conn }
+
+// appWrap is the application's Dialer.WrapConn wrapper (it forwards everything).
+type appWrap struct{ net.Conn }
 
 type result struct {
 	conn       net.Conn
@@ -271,6 +275,9 @@ func runScenario(t *testing.T, s scen) (o outcome) {
 		if s.RealTLS {
 			d.TLSClient = nil
 			d.TLSConfig = &tls.Config{InsecureSkipVerify: true}
+		}
+		if s.WrapConn {
+			d.WrapConn = func(cn net.Conn) net.Conn { return appWrap{cn} }
 		}
 		url := "ws://c20.example/x"
 		if s.TLS || s.RealTLS {
@@ -685,6 +692,7 @@ func buildScenarios(t *testing.T) []scen {
 					for _, to := range []time.Duration{0, far} {
 						s := base
 						s.CtxKind, s.CtxDeadline, s.Timeout = ck, 2*far, to
+						s.WrapConn = to != 0
 						scenList = append(scenList, s)
 					}
 					s := base
@@ -706,8 +714,12 @@ func buildScenarios(t *testing.T) []scen {
 					s := sil
 					s.Event, s.Place = "cancel", "blocked"
 					scenList = append(scenList, s)
+					s.WrapConn = true // (with an application wrapper around the TLS connection: nothing about cancellation changes)
+					scenList = append(scenList, s)
 					s = sil
 					s.CtxKind, s.CtxDeadline = "withdeadline", 5*time.Second
+					scenList = append(scenList, s)
+					s.WrapConn = true
 					scenList = append(scenList, s)
 					for _, ck := range ctxAll {
 						s := sil
